@@ -410,6 +410,7 @@ theorem frame_setChildValue (g : GW) (node child : Int) (vt : VT) (value : Str) 
   unfold setChildValue
   apply frame_ifKnown; intro g1
   apply frame_withNode; intro n hn
+  unfold setKnown
   split
   · exact frame_fail g1 _
   · split
